@@ -255,6 +255,7 @@ func (incr *incremental[Obj]) commitStatus() (numErrors int) {
 			numErrors++
 		}
 
+		retryObj := result.original.(Obj)
 		current, exists, err := incr.table.CompareAndSwap(wtxn, result.rev, incr.config.SetObjectStatus(obj, status))
 		if errors.Is(err, statedb.ErrRevisionNotEqual) && exists {
 			// The object had changed. Check if the pending status still carries the same
@@ -272,6 +273,13 @@ func (incr *incremental[Obj]) commitStatus() (numErrors int) {
 			currentStatus := incr.config.GetObjectStatus(current)
 			if (currentStatus.Kind == StatusKindPending && currentStatus.ID == result.id) ||
 				(currentStatus.Kind == StatusKindError && result.errorID != 0 && currentStatus.ID == result.errorID) {
+				// A retry continues from this version of the object (with the status
+				// the processed copy carried): committing the result of a retry on top
+				// of the processed copy would write the stale statuses of the other
+				// reconcilers back.
+				retryObj = incr.config.SetObjectStatus(
+					incr.config.CloneObject(current),
+					incr.config.GetObjectStatus(result.original.(Obj)))
 				current = incr.config.CloneObject(current)
 				current = incr.config.SetObjectStatus(current, status)
 				_, _, err = incr.table.Insert(wtxn, current)
@@ -282,8 +290,8 @@ func (incr *incremental[Obj]) commitStatus() (numErrors int) {
 			// Reconciliation of the object had failed and the status was updated
 			// successfully (object had not changed). Queue the retry for the object.
 			newRevision := incr.table.Revision(wtxn)
-			incr.retries.Add(result.original.(Obj), newRevision, result.rev, false, result.err)
-			incr.retries.SetErrorStatusID(result.original.(Obj), status.ID)
+			incr.retries.Add(retryObj, newRevision, result.rev, false, result.err)
+			incr.retries.SetErrorStatusID(retryObj, status.ID)
 		}
 	}
 	return
